@@ -126,12 +126,22 @@ Definition kf_shared_span (c : rcase) (m : msg) : bool :=
   (Nat.leb 2 (length gs) ||
    existsb (fun p => has_plain t (subs_of p c) && existsb (fun G => has_member t G (subs_of p c)) gs) (rc_peers c)).
 
-(* F-C17-2: a retained message with an empty payload is stored on the receiving node
-   instead of clearing the retained message of the topic *)
-Definition kf_retained_empty (m : msg) : bool := m_retained m && is_nil (m_payload m).
-
 (* ---------- observables of the model ---------- *)
 Definition pub_obs_of (x : list (str * list fevent) * bool * option iopts) : pub_obs :=
   let '(evs, drop, opts) := x in
   {| po_sent := flat_map (fun p => flat_map (fun e => match e with EMsg m => [(fst p, m)] | _ => [] end) (snd p)) evs;
      po_drop := drop; po_opts := opts |}.
+
+(* ---------- a whole federation in a stable state, seen from the origin ---------- *)
+(* the origin's broker store holds its local subscriptions; the federation tree holds, for
+   every peer, that peer's local topic set (what C16 establishes once the streams are stable) *)
+Definition local_ops_of (c : rcase) : list op :=
+  map (fun s : lsub => OSub (fst (fst s)) (plain_sub (snd (fst s)) (snd s))) (subs_of (rc_node c) c).
+Definition fed_ops_of (c : rcase) : list op :=
+  flat_map (fun n => map (fun s : lsub => OSub n (plain_sub (snd (fst s)) (snd s))) (subs_of n c)) (rc_peers c).
+Definition case_state (c : rcase) (counters : list (str * N)) : rstate :=
+  {| r_node := rc_node c; r_local := db_run (local_ops_of c); r_fed := db_run (fed_ops_of c);
+     r_sent := counters; r_peers := map (fun n => (n, [])) (rc_peers c) |}.
+Definition case_obs (c : rcase) (counters : list (str * N)) (m : msg) : pub_obs :=
+  let '(st', drop, opts) := fr_send_message (case_state c counters) m in
+  pub_obs_of (fr_new_events (case_state c counters) st', drop, opts).
